@@ -263,6 +263,18 @@ func main() {
 	small = append(small, []string{"10.1.2.0/24", "10.0.0.0/8"}, []string{"10.0.0.0/8", "10.0.0.0/8", "10.1.2.0/24"})
 	type pair struct{ a, b int }
 	var pairs []pair
+	// spelling twins: a v4 prefix a.b.c.d/N and the v6 prefix written ::ffff:a.b.c.d/N (same N<=32, i.e. ::/N) have
+	// the same 16 address bytes and the same number but are different sets; each must keep its own storage, in both rule orders.
+	for _, ps := range pool {
+		p := netip.MustParsePrefix(ps)
+		if !p.Addr().Is4() {
+			continue
+		}
+		twin := fmt.Sprintf("::ffff:%s/%d", p.Addr(), p.Bits())
+		small = append(small, []string{ps}, []string{twin})
+		pairs = append(pairs, pair{len(small) - 2, len(small) - 1}, pair{len(small) - 1, len(small) - 2})
+	}
+	r.Set("twin_pairs", len(pairs))
 	step := 1
 	if !r.Thorough() {
 		step = 7 // quick: every set as first rule x every 7th as second (rotating offset) — still a full product over a sub-lattice
